@@ -131,13 +131,20 @@ def _norm_number(spec, raw, typ):
     return OK(n)
 
 
-def validator_rejects(spec, value):
+def validator_rejects(spec, value, ctx=None):
     """The harness validators from the menu (sim.schema) are pure predicates; the model knows them."""
     vid = spec.get("validator")
     if not vid or value is None:
         return False
     if vid in ("neg", "negk"):
         return _neg_predicate(value)
+    if vid.startswith(("ge:", "le:")):
+        # a validator that reads a sibling field of the same configuration ("hi must not be below lo"): judged against the
+        # sibling's value as it is right now (the scenario provides it)
+        live = getattr(ctx, "live", None)
+        sib = live(vid[3:]) if live else None
+        if isinstance(sib, int) and isinstance(value, int) and not isinstance(sib, bool):
+            return value < sib if vid.startswith("ge:") else value > sib
     return False
 
 
@@ -159,7 +166,7 @@ def _neg_predicate(v):
 
 def norm(spec, raw, ctx):
     r = _norm(spec, raw, ctx)
-    if isinstance(r, OK) and validator_rejects(spec, _concrete(r.v)):
+    if isinstance(r, OK) and validator_rejects(spec, _concrete(r.v), ctx):
         return REJ
     if isinstance(r, OK) and spec.get("validator") == "tag" and r.v is not None:
         return OK(tag_transform(r.v))
